@@ -76,6 +76,9 @@ Predict(r) ==
     [] r.f = "eit_output"       -> EitOutput(r.a[1])
     [] r.f = "eit_sequence_error" -> EitSequenceError(r.a[1], r.tf)
     [] r.f = "var_assign"       -> VarAssign(r.a[1], r.a[2])
+    [] r.f = "var_assign_src"   -> VarAssignSrc(r.a[1], r.a[2])
+    [] r.f = "var_index"        -> VarIndex(r.a[1])
+    [] r.f = "var_get"          -> VarGet(r.a[1])
     [] r.f = "var_ref_write"    -> VarRefWrite(r.i, r.a[1], r.d)
     [] r.f = "var_dynamic_cast" -> VarDynamicCast(r.types, {r.castable[k] : k \in DOMAIN r.castable})
     [] r.f = "var_output"       -> VarOutput(r.a[1])
@@ -98,7 +101,8 @@ Known == {"opt_maybe", "opt_maybe_void", "opt_map", "opt_bind", "monad_bind_opt"
           "opt_value_copy_write", "opt_assign", "opt_nothing", "opt_make", "opt_to_exception",
           "opt_output", "optopt_output", "eit_construct", "eit_error_from_optional",
           "eit_make_success", "eit_make_failure", "eit_to_exception", "eit_output",
-          "eit_sequence_error", "var_assign", "var_ref_write", "var_dynamic_cast", "var_output",
+          "eit_sequence_error", "var_assign", "var_assign_src", "var_index", "var_get",
+          "var_ref_write", "var_dynamic_cast", "var_output",
           "monad_chain_opt", "monad_chain_eit", "monad_do_opt", "monad_do_eit",
           "monad_return_opt", "monad_return_eit"}
 
@@ -122,10 +126,19 @@ Known == {"opt_maybe", "opt_maybe_void", "opt_map", "opt_bind", "monad_bind_opt"
          opt_eq opt_ne opt_less eit_eq eit_ne eit_success_opt eit_failure_opt var_to_optional
          var_holds_type var_compare var_eq var_ne var_less
    (records of these kinds over the 4-alternative variant are the same kinds at a deeper bound).
-   Everything added in the extension round (pointers / references / assign / nothing / make /
+   Round 3 audit - promoted, with the clause:
+     "the optional, either and variant operations agree with the tagged-union model", anchor
+     variant/object_impl.hpp (type_index, is_invalid, get_unsafe are defined there; the tag of the
+     tagged union IS type_index(), comparison.hpp states operator< in terms of it)
+         var_index var_get
+     the same clause with the anchors variant/object_impl.hpp (converting constructor) and
+     holds_type.hpp ("The currently held type of a variant is the type passed to its constructor or
+     assignment operator"): after v = w / V{std::move(w)} the target holds w's alternative and value
+         var_assign          (the index a moved-from SOURCE reports, var_assign_src, stays observed)
+   Everything else added in the extension round (pointers / references / value copies / assign / nothing / make /
    to_exception / output, either construct / error_from_optional / make_* / to_exception /
-   sequence_error / output, variant assignment / to_optional_ref / dynamic_cast_ / output,
-   monad chain / do_ / return_) is not named by the statement: observed only. *)
+   sequence_error / output, variant to_optional_ref / dynamic_cast_ / output, the index of a
+   moved-from variant, monad chain / do_ / return_) is not named by the statement: observed only. *)
 InScope == {"opt_maybe", "opt_maybe_void", "opt_map", "opt_bind", "monad_bind_opt", "opt_join",
             "opt_apply", "opt_filter", "opt_alternative", "opt_combine", "opt_cat", "opt_sequence",
             "opt_from", "opt_maybe_multi", "opt_make_if", "opt_eq", "opt_ne", "opt_less",
@@ -133,7 +146,8 @@ InScope == {"opt_maybe", "opt_maybe_void", "opt_map", "opt_bind", "monad_bind_op
             "eit_apply", "eit_sequence", "eit_first_success", "eit_loop", "eit_from_optional",
             "eit_try_call", "eit_success_opt", "eit_failure_opt", "eit_eq", "eit_ne",
             "var_match", "var_apply", "var_to_optional", "var_holds_type", "var_compare",
-            "var_eq", "var_ne", "var_less"}
+            "var_eq", "var_ne", "var_less",
+            "var_index", "var_get", "var_assign"}
 
 CallsOK(r, p) ==
   IF r.f = "eit_first_success" THEN BagCallsEq(p.calls, r.calls)
